@@ -229,7 +229,7 @@ def type_dependent(value, slot):
     sid = set(slot.atoms(deep=False)) if isinstance(slot, Rat) else set()
     for k in value.atoms(deep=True):
         a = alg.TABLE.atoms[k]
-        if a.kind == 'fn' and a.name == 'type' and a.args and isinstance(a.args[0], Rat) and sid & set(a.args[0].atoms(deep=False)):
+        if a.kind == 'fn' and a.name in ('type', 'isinstance') and a.args and isinstance(a.args[0], Rat) and sid & set(a.args[0].atoms(deep=False)):
             return True
     return False
 
@@ -318,6 +318,12 @@ def iers_rules(repo, rep, ev):
         q = Rat.sym('q_' + p)
         rot = p.replace('d_', '').startswith('r')
         want = (-q if rot else q) / thousand
+        got_ = r.fields.get(p)
+        if isinstance(got_, Rat) and type_dependent(got_, q):
+            rep.violated('R-FORMULA', base + p, wi, '%s depends on the PYTHON TYPE of the number handed in (%s): a rotation typed as the integer 7 and one typed as 7.0 give different '
+                         'parameter sets - the catalogue itself writes whole numbers without a decimal point' % (p, show(got_, 2, 140)),
+                         expected='%s%s/1000 for every number' % ('-' if rot else '+', p), actual=show(got_, 2, 200))
+            continue
         check_equal(rep, 'R-FORMULA', base + p, wi, r.fields.get(p), want,
                     '%s is stored as %s%s/1000 (%s)' % (p, '-' if rot else '+', p, 'mas -> arcsec, sign reversed' if rot else ('ppb -> ppm' if 'sc' in p else 'mm -> m')))
     ps = [p.name for p in f.params]
